@@ -539,6 +539,11 @@ func (handler *Handler) handleStatementExecute(ctx context.Context, packet *Pack
 
 		var err error
 		var queryObj = handler.protocolState.PendingParse()
+		if queryObj == nil {
+			// nothing was prepared on this connection: the database answers with an error
+			log.Warningln("Statement Execute of the last prepared statement without a prepared statement")
+			return 0, nil
+		}
 
 		statement, err = queryObj.Statement()
 		if err != nil {
